@@ -67,6 +67,9 @@ type Exec struct {
 	specs     map[*ssa.Function]*specDef
 	specMode  int
 	defining  []*ssa.Function
+	frameStack []*loopFrame
+	curPos    token.Pos
+	axiomsDone map[string]bool
 }
 
 // Notes accumulate everything assumed or abstracted during a run.
@@ -317,6 +320,7 @@ type frame struct {
 	verify   bool // verifying this function against its contract (top level)
 	names    map[string]ssa.Value
 	loopMode map[*loopInfo]int // -1: cut by invariant, >=0 unroll bound
+	loopFrames map[*loopInfo]*loopFrame
 	bindings []Value
 }
 
@@ -418,6 +422,8 @@ func (x *Exec) ExecFunc(fr *frame, st *State) (Value, *State) {
 	dfs(entry, &nodeInfo{b: fn.Blocks[0], counts: map[*loopInfo]int{}})
 
 	incoming := map[vnode][]vedge{}
+	baseFrames := x.frameStack
+	defer func() { x.frameStack = baseFrames }()
 	start := st
 	for i, p := range fn.Params {
 		start.Env[p] = fr.args[i]
@@ -448,11 +454,18 @@ func (x *Exec) ExecFunc(fr *frame, st *State) (Value, *State) {
 		b := ni.b
 		// cut loop header
 		if l := fi.byHeader[b]; l != nil && fr.loopMode[l] < 0 {
+			x.frameStack = baseFrames
 			x.cutLoopHeader(fr, l, cur)
 		}
-		x.execBlock(fr, cur, b, func(s *ssa.BasicBlock, cond *Term) {
+		x.frameStack = append([]*loopFrame{}, baseFrames...)
+		for _, l := range fi.chain(b) {
+			if lf := fr.loopFrames[l]; lf != nil {
+				x.frameStack = append(x.frameStack, lf)
+			}
+		}
+		x.execFrom(fr, cur, b, 0, func(cur *State, s *ssa.BasicBlock, cond *Term) {
 			tv, _, tag := succTarget(ni, s)
-			est := cur // state is shared; edge condition distinguishes
+			est := cur
 			ec := x.C.And(cur.PC, cond)
 			if ec.IsFalse() {
 				return
@@ -709,10 +722,32 @@ func (x *Exec) operand(st *State, v ssa.Value) Value {
 }
 
 // execBlock runs the non-phi instructions of b.
-func (x *Exec) execBlock(fr *frame, st *State, b *ssa.BasicBlock, edge func(s *ssa.BasicBlock, cond *Term), rets *[]retPoint) {
-	for _, ins := range b.Instrs {
+// execFrom runs the non-phi instructions of b starting at index start. An append whose
+// capacity test is symbolic forks the state (in place / reallocated), so that obligations
+// generated before the next join are stated per case instead of over ite-merged arrays.
+func (x *Exec) execFrom(fr *frame, st *State, b *ssa.BasicBlock, start int, edge func(st *State, s *ssa.BasicBlock, cond *Term), rets *[]retPoint) {
+	for idx := start; idx < len(b.Instrs); idx++ {
+		ins := b.Instrs[idx]
 		if st.PC.IsFalse() {
 			return
+		}
+		if call, ok := ins.(*ssa.Call); ok && x.specMode == 0 {
+			if bi, ok := call.Call.Value.(*ssa.Builtin); ok && bi.Name() == "append" {
+				s := x.operand(st, call.Call.Args[0])
+				t := x.operand(st, call.Call.Args[1])
+				if len(t.L) == 4 && !isString(t.T) {
+					fits := x.C.BVCmp("bvsle", x.C.BVBin("bvadd", s.L[2], t.L[2]), s.L[3])
+					if !fits.IsTrue() && !fits.IsFalse() && !(t.L[2].IsLit() && t.L[2].Val.Sign() == 0) {
+						for _, c := range []*Term{fits, x.C.Not(fits)} {
+							sub := st.snapshot()
+							sub.PC = x.C.And(sub.PC, c)
+							x.execInstr(fr, sub, ins)
+							x.execFrom(fr, sub, b, idx+1, edge, rets)
+						}
+						return
+					}
+				}
+			}
 		}
 		switch ins := ins.(type) {
 		case *ssa.Phi:
@@ -721,11 +756,11 @@ func (x *Exec) execBlock(fr *frame, st *State, b *ssa.BasicBlock, edge func(s *s
 			continue
 		case *ssa.If:
 			cond := x.operand(st, ins.Cond).L[0]
-			edge(b.Succs[0], cond)
-			edge(b.Succs[1], x.C.Not(cond))
+			edge(st, b.Succs[0], cond)
+			edge(st, b.Succs[1], x.C.Not(cond))
 			return
 		case *ssa.Jump:
-			edge(b.Succs[0], x.C.True())
+			edge(st, b.Succs[0], x.C.True())
 			return
 		case *ssa.Return:
 			var val Value
@@ -760,6 +795,9 @@ func (x *Exec) execBlock(fr *frame, st *State, b *ssa.BasicBlock, edge func(s *s
 
 func (x *Exec) execInstr(fr *frame, st *State, ins ssa.Instruction) {
 	c := x.C
+	if ins.Pos().IsValid() {
+		x.curPos = ins.Pos()
+	}
 	switch ins := ins.(type) {
 	case *ssa.Alloc:
 		elem := ins.Type().(*types.Pointer).Elem()
